@@ -37,6 +37,7 @@ def mappingOf : Option V → Option Items
   | none => some []
   | some (.dict _ items) => some items
   | some (.atom 0 0) => some []
+  | some (.atom 3 _) => some []
   | some (.atom _ _) => none
 
 mutual
